@@ -196,6 +196,12 @@ def acc_folds(b, g):
     return res
 
 
+def const_like(e):
+    while e[0] == 'cast':
+        e = e[1]
+    return e[1] if e[0] == 'const' else None
+
+
 def seed_is_element(e):
     return e[0] != 'const' and any(is_call(x, '::next') or is_call(x, '::split_first') or is_call(x, '::first') or x[0] == 'index' for x in walk(e))
 
@@ -225,7 +231,11 @@ def r19_2(ctx):
             if isinstance(callee, str) and callee.endswith('::fold'):
                 n += 1
                 init = args[1]
-                seeded = init[0] == 'field' and init[1][0] == 'variant' and init[1][2] == 'Some' and any(is_call(x, '::next') for x in walk(init))
+                seeded = (init[0] == 'field' and init[1][0] == 'variant' and init[1][2] == 'Some' and any(is_call(x, '::next') for x in walk(init))) or \
+                    (init[0] != 'const' and any(is_call(x, '::split_first') or is_call(x, '::first') for x in walk(init)))
+                if not seeded and init[0] != 'const' and const_like(init) is None:
+                    ctx.undecided(R, 'fold-seed', 'the seed of the fold over the values of one key is neither a constant nor recognisably the first value: %s' % fmt(init)[:60], fn=un, at=t.get('span'))
+                    continue
                 ctx.check(R, seeded, 'fold-seed', 'the fold over the values of one key must start from the first value, not from %s: a constant seed is not neutral for every merger (0 is absorbing for min)' % fmt(init)[:60], fn=un, at=t.get('span'))
                 clo = [x for x in args if x[0] == 'closure']
                 ok = False
@@ -292,7 +302,8 @@ def r19_lossless(ctx):
     mg = b.fn(MERGE)
     if mg is None:
         return
-    lossy = ('::chunks_exact', '::rchunks_exact', '::array_chunks', '::truncate', '::take', '::skip', '::step_by', '::dedup')
+    lossy = ('<impl [T]>::chunks_exact', '<impl [T]>::rchunks_exact', '<impl [T]>::array_chunks', 'Vec::<T, A>::truncate', 'Iterator::take', 'Iterator::skip', 'Iterator::step_by',
+             'Vec::<T, A>::dedup', 'Vec::<T, A>::dedup_by', 'Vec::<T, A>::dedup_by_key')
     cg = CallGraph(b)
     fns = [mg] + [b.fns[q] for q in sorted(cg.reachable([mg.path])) if q in b.fns and q.startswith('merge::') and q != mg.path]
     bad = []
